@@ -1048,3 +1048,35 @@ func (r *RefFS) DurableData(p string) ([]byte, bool) {
 	}
 	return append([]byte(nil), n.durable...), true
 }
+
+// DumpHex is Dump(true) with every path hex-encoded (safe for any byte in a name).
+func (r *RefFS) DumpHex() string {
+	r.mu.Lock()
+	defer r.mu.Unlock()
+	var sb strings.Builder
+	var rec func(p string, n *rnode)
+	rec = func(p string, n *rnode) {
+		switch n.kind {
+		case kDir:
+			fmt.Fprintf(&sb, "d:%s:%o:%d:%d;", hx([]byte(p)), uint32(n.perm), n.uid, n.gid)
+			names := make([]string, 0, len(n.children))
+			for k := range n.children {
+				names = append(names, k)
+			}
+			sort.Strings(names)
+			for _, k := range names {
+				cp := p + "/" + k
+				if p == "/" {
+					cp = "/" + k
+				}
+				rec(cp, n.children[k])
+			}
+		case kFile:
+			fmt.Fprintf(&sb, "f:%s:%o:%d:%d:%s;", hx([]byte(p)), uint32(n.perm), n.uid, n.gid, hx(n.data))
+		case kLink:
+			fmt.Fprintf(&sb, "l:%s:%s;", hx([]byte(p)), hx([]byte(n.target)))
+		}
+	}
+	rec("/", r.root)
+	return sb.String()
+}
